@@ -752,6 +752,18 @@ pub fn gen_tags(rng: &mut Rng, len: usize, heavy: bool) -> Vec<(usize, u64, u64)
             (pos, rng.below(4) as u64, rng.below(1000) as u64)
         })
         .collect();
+    // the same marker (equal key and value) on a neighbouring sample, as a detector firing twice does: derived
+    // from the tags drawn above, no further random draw
+    if let Some(t) = v.first().copied() {
+        if t.2 % 2 == 0 {
+            v.push(((t.0 + 1 + (t.2 % 3) as usize).min(len - 1), t.1, t.2));
+        }
+    }
+    if let Some(t) = v.last().copied() {
+        if t.2 % 3 == 0 {
+            v.push((t.0.saturating_sub(1 + (t.2 % 2) as usize), t.1, t.2));
+        }
+    }
     // the stream keeps tags of one sample in commit order; feed order = this order
     v.sort_by_key(|t| t.0);
     v
